@@ -216,7 +216,7 @@ func dupFreeLists() [][]lv {
 			if used&(1<<t) != 0 {
 				continue
 			}
-			for _, x := range []string{"a", "b", ""} {
+			for _, x := range []string{"a", "b", "", nilText} {
 				rec(append(cur, lv{nlvTags[t], x}), used|1<<t)
 			}
 		}
@@ -225,9 +225,16 @@ func dupFreeLists() [][]lv {
 	return out
 }
 
+// nilText marks an entry whose text is nil (what Set(tag, nil) leaves) rather than empty-but-non-nil: both are "no text"
+const nilText = "\x00nil"
+
 func toNLV(l []lv) vocab.NaturalLanguageValues {
 	n := vocab.NaturalLanguageValues{}
 	for _, e := range l {
+		if e.text == nilText {
+			n = append(n, vocab.LangRefValue{Ref: e.tag})
+			continue
+		}
 		n = append(n, vocab.LangRefValue{Ref: e.tag, Value: vocab.Content(e.text)})
 	}
 	return n
@@ -238,7 +245,11 @@ func sameEntries(n vocab.NaturalLanguageValues, l []lv) bool {
 		return false
 	}
 	for i := range l {
-		if n[i].Ref != l[i].tag || string(n[i].Value) != l[i].text {
+		want := l[i].text
+		if want == nilText {
+			want = ""
+		}
+		if n[i].Ref != l[i].tag || string(n[i].Value) != want {
 			return false
 		}
 	}
@@ -248,7 +259,11 @@ func sameEntries(n vocab.NaturalLanguageValues, l []lv) bool {
 func pairSet(l []lv) string {
 	s := make([]string, len(l))
 	for i, e := range l {
-		s[i] = string(e.tag) + "=" + e.text
+		t := e.text
+		if t == nilText {
+			t = ""
+		}
+		s[i] = string(e.tag) + "=" + t
 	}
 	sort.Strings(s)
 	return strings.Join(s, ",")
